@@ -343,5 +343,68 @@ example :
     rep1.ret = .err ∧ rep1.sub = 3 ∧ rep1.runs = [0, 0] ∧ rep1.stops = [1, 1] ∧
     rep2.ret = .ok ∧ rep2.sub = 4 ∧ rep2.runs = [1, 1] ∧ r2.live = [("z", 7)] ∧ r2.next = 15 := by decide
 
+/-- state after some runs of one process object: the registry is the original one plus at most the current subscription -/
+private def RunInv (r : Reg) (sid : Sid) (st : Reg × Option Nat) : Prop :=
+  r.next ≤ st.1.next ∧ st.1.pending = r.pending ∧ st.1.streams = r.streams ∧
+  match st.2 with
+  | some i => st.1.live = r.live ++ [(sid, i)] ∧ r.next ≤ i ∧ i < st.1.next
+  | none => st.1.live = r.live
+
+private theorem drop_current (l : List (Sid × Nat)) (sid : Sid) (n i : Nat) (h : ∀ x ∈ l, x.2 < n) (hi : n ≤ i) :
+    (l ++ [(sid, i)]).filter (fun x => ![i].contains x.2) = l := by
+  rw [List.filter_append]
+  have h1 : l.filter (fun x => ![i].contains x.2) = l := by
+    apply List.filter_eq_self.2
+    intro x hx; have := h x hx
+    simp; omega
+  rw [h1]; simp
+
+private theorem runInv_step (r : Reg) (sid : Sid) (hf : r.Fresh) (st : Reg × Option Nat) (h : RunInv r sid st) :
+    RunInv r sid (runAgain sid st) := by
+  obtain ⟨r', cur⟩ := st
+  obtain ⟨hn, hp, hs, hc⟩ := h
+  cases cur with
+  | none =>
+    simp only at hc hn hp hs
+    simp only [RunInv, runAgain, Reg.subscribe, List.range'_one, List.map_cons, List.map_nil, List.head?_cons, hc]
+    refine ⟨by omega, hp, hs, trivial, hn, by omega⟩
+  | some i =>
+    simp only at hc hn hp hs
+    obtain ⟨hl, hi, hi'⟩ := hc
+    have := drop_current r.live sid r.next i hf hi
+    simp only [RunInv, runAgain, Reg.subscribe, Reg.unsubscribe, List.range'_one, List.map_cons, List.map_nil,
+      List.head?_cons, hl, this]
+    refine ⟨by omega, hp, hs, trivial, hn, by omega⟩
+
+private theorem runInv_iter (r : Reg) (sid : Sid) (hf : r.Fresh) (n : Nat) (st : Reg × Option Nat)
+    (h : RunInv r sid st) : RunInv r sid (iter (runAgain sid) n st) := by
+  induction n generalizing st with
+  | zero => exact h
+  | succ n ih => exact ih _ (runInv_step r sid hf st h)
+
+/-- **C09 (b), retried process.** A process object that is Run any number of times (the coordinator's retry rounds)
+    and then stopped once leaves the subscription registry exactly as it found it. -/
+theorem rerun_releases_all (r : Reg) (sid : Sid) (n : Nat) (hf : r.Fresh) :
+    (rerun r sid n).live = r.live ∧ (rerun r sid n).pending = r.pending ∧ (rerun r sid n).streams = r.streams := by
+  have h := runInv_iter r sid hf n (r, none) ⟨Nat.le_refl _, rfl, rfl, rfl⟩
+  unfold rerun stopProc
+  generalize iter (runAgain sid) n (r, none) = st at h
+  obtain ⟨r', cur⟩ := st
+  obtain ⟨_, hp, hs, hc⟩ := h
+  cases cur with
+  | none => exact ⟨hc, hp, hs⟩
+  | some i =>
+    simp only at hc
+    obtain ⟨hl, hi, _⟩ := hc
+    simp only [Reg.unsubscribe, hl]
+    exact ⟨drop_current r.live sid r.next i hf hi, hp, hs⟩
+
+/-- as found (`Run` overwrote the id, `Stop` released only the last one) a process run twice leaked a subscription;
+    witness kept as corpus line `rerun esigning 2` -/
+theorem asfound_rerun_leaks : (rerunAsFound ⟨[], [], [], 0⟩ "a" 2).live = [("a", 0)] := by decide
+
+example : (rerun ⟨[], [("z", 7)], [], 8⟩ "a" 3).live = [("z", 7)] ∧ (rerun ⟨[], [("z", 7)], [], 8⟩ "a" 3).next = 11 := by
+  decide
+
 end PropertyB
 end Sygma.C09
